@@ -852,6 +852,7 @@ func c04Root(n *c04Node) *ggql.Root {
 //	source 1: variable           query($v: T){f(x:$v)}   vars = {v: value}
 //	source 2: variable default   query($v: T = LIT){f(x:$v)}   no vars
 //	source 3: default overridden query($v: T = OTHER){f(x:$v)} vars = {v: value}
+//
 // c04Source draws the source (see c04Deliver) and, for variables, the Go
 // kind integers travel in.
 func c04Source(sources int, kinds []int) (src, ik int) {
